@@ -38,6 +38,9 @@ static const struct item ITEMS[] = {
     /* the file entry points (files of different sizes, private to the item): placed so that two threads run them side by side */
     {2, 1, 1, 0, 0, "mov rax, 0x5\nret\n", 1},
     {0, 1, 0, 0, 8, "vpaddb ymm1, ymm2, [rax+r9*4]\nadd rax, rcx\nlea rdx, [rax+rsp]\nmov rax, 0x1122334455667788\npush r11w\nshl rax, 0x5\nnop9\nret\n", 1},
+    /* a file that turns out shorter than fstat announced (the harness ends its first read early): the call must fail, alone as
+       well as next to other threads, and must not disturb their files */
+    {2, 1, 1, 0, 0, "mov rax, 0x7\nadd rax, rcx\nret\n", 2},
     {0, 0, 0, 8, 0, "mov rax, 0x1122334455667788\nvpaddb ymm1, ymm2, [rax+r9*4]\npush r11w\nshl rax, 0x5\nret\n"},
     {1, 1, 0, 0, 16, "xor eax, eax\nimul rax, rcx, 0x12345\nmovq xmm1, rax\nbzhi ecx, [r13+rcx*4], r10d\njne -0x1000\nret\n"},
     {2, 0, 1, 16, 0, "paddb mm1, [rax]\nsetc al\ncmovne rax, r11\nmulx r8, r9, [rsi]\nmov qword [rax+0x12345], 0x5\nret\n"},
@@ -59,7 +62,7 @@ static void on_grow_count(const void *al, int o, int n, int moved) { (void)al; (
 struct result { int ret, off, dest; unsigned hash; };
 
 static char item_path[16][300];
-static __thread int in_work = 0;
+static __thread int in_work = 0, short_read = 0;
 static void os_yield(int id);
 static unsigned hash30(const unsigned char *p, int n) {
   unsigned h = 2166136261u;
@@ -81,9 +84,10 @@ static void work(const struct item *it, unsigned char *buf, struct result *r) {
   char *txt = strdup(it->usefile ? item_path[it - ITEMS] : it->text ? it->text : long_text);
   r->dest = -7;
   in_work = 1;
+  short_read = it->usefile == 2;
   if (it->usefile) r->ret = it->count ? asm_assemble_file_counting_chunks(al, txt, it->count, &r->dest) : asm_assemble_file(al, txt);
   else r->ret = it->count ? asm_assemble_string_counting_chunks(al, txt, it->count, &r->dest) : asm_assemble_str(al, txt);
-  in_work = 0;
+  in_work = 0; short_read = 0;
   free(txt);
   r->off = asm_get_offset(al);
   if (it->internal) r->hash = hash30(asm_get_code(al), r->off > 0 ? r->off : 0);
@@ -134,7 +138,7 @@ static void os_yield(int id) { if (in_work && me != 0 && al_verif.tbl == on_tbl)
 int __real_open(const char *, int, ...); int __real_fstat(int, struct stat *); ssize_t __real_read(int, void *, size_t); int __real_close(int);
 int __wrap_open(const char *p, int fl, ...) { os_yield(0); int r = __real_open(p, fl, 0); os_yield(1); return r; }
 int __wrap_fstat(int fd, struct stat *st) { os_yield(2); int r = __real_fstat(fd, st); os_yield(3); return r; }
-ssize_t __wrap_read(int fd, void *b, size_t n) { os_yield(4); ssize_t r = __real_read(fd, b, n); os_yield(5); return r; }
+ssize_t __wrap_read(int fd, void *b, size_t n) { os_yield(4); ssize_t r = (short_read && in_work) ? 0 : __real_read(fd, b, n); os_yield(5); return r; }
 int __wrap_close(int fd) { os_yield(6); int r = __real_close(fd); os_yield(7); return r; }
 /* pair mode: thread 1 grows a library-managed buffer; the first time the kernel MOVES its mapping, thread 2 is let in right behind
  * the mremap (it creates a library-managed instance - its mapping takes the range just vacated, if the kernel hands it out - and
